@@ -509,4 +509,81 @@ Module Toy.
 
   Lemma info_roundtrip ts id : dec_info (enc_info ts id) = Some (ts, id).
   Proof. unfold dec_info, enc_info, encZ. cbn [app]. rewrite decZ_encZ. reflexivity. Qed.
+  (** a codec for [AsEntrySignedBody] values: length-prefixed fields *)
+  Definition put_bytes (b : bytes) : bytes := N.of_nat (length b) :: b.
+  Definition get_bytes (l : bytes) : option (bytes * bytes) :=
+    match l with
+    | n :: r => if (N.to_nat n <=? length r)%nat then Some (firstn (N.to_nat n) r, skipn (N.to_nat n) r) else None
+    | [] => None
+    end.
+  Definition enc_rhf (h : rhopfield) : bytes := rhf_in h :: rhf_eg h :: rhf_exp h :: put_bytes (rhf_mac h).
+  Definition get_rhf (l : bytes) : option (rhopfield * bytes) :=
+    match l with
+    | a :: b :: c :: r => match get_bytes r with Some (m, r') => Some (mkRHF a b c m, r') | None => None end
+    | _ => None
+    end.
+  Definition enc_orhf (o : option rhopfield) : bytes := match o with None => [0] | Some h => 1 :: enc_rhf h end.
+  Definition get_orhf (l : bytes) : option (option rhopfield * bytes) :=
+    match l with
+    | t :: r => if t =? 0 then Some (None, r)
+                else match get_rhf r with Some (h, r') => Some (Some h, r') | None => None end
+    | [] => None
+    end.
+  Definition enc_peer (p : rpeer) : bytes := rpe_ia p :: rpe_if p :: rpe_mtu p :: enc_orhf (rpe_hf p).
+  Definition get_peer (l : bytes) : option (rpeer * bytes) :=
+    match l with
+    | a :: b :: c :: r => match get_orhf r with Some (h, r') => Some (mkRPE a b c h, r') | None => None end
+    | _ => None
+    end.
+  Fixpoint get_peers (k : nat) (l : bytes) : option (list rpeer * bytes) :=
+    match k with
+    | O => Some ([], l)
+    | S k' => match get_peer l with
+              | Some (p, r) => match get_peers k' r with Some (ps, r') => Some (p :: ps, r') | None => None end
+              | None => None
+              end
+    end.
+  Definition enc_body (b : rbody) : bytes :=
+    rb_ia b :: rb_next b :: rb_mtu b ::
+    match rb_hop b with None => [0] | Some e => 1 :: rhe_mtu e :: enc_orhf (rhe_hf e) end
+    ++ N.of_nat (length (rb_peers b)) :: flat_map enc_peer (rb_peers b).
+  Definition dec_body (l : bytes) : option rbody :=
+    match l with
+    | a :: b :: c :: t :: r =>
+      match (if t =? 0 then Some (None, r)
+             else match r with
+                  | m :: r1 => match get_orhf r1 with Some (h, r2) => Some (Some (mkRHE h m), r2) | None => None end
+                  | [] => None end) with
+      | Some (hop, n :: r3) =>
+        match get_peers (N.to_nat n) r3 with Some (ps, []) => Some (mkRB a b hop ps c) | _ => None end
+      | _ => None
+      end
+    | _ => None
+    end.
+
+  Lemma get_put_bytes b rest : get_bytes (put_bytes b ++ rest) = Some (b, rest).
+  Proof. unfold get_bytes, put_bytes. cbn [app]. destruct (split_ok b rest) as (-> & -> & ->). reflexivity. Qed.
+  Lemma get_enc_rhf h rest : get_rhf (enc_rhf h ++ rest) = Some (h, rest).
+  Proof. unfold get_rhf, enc_rhf. cbn [app]. rewrite get_put_bytes. destruct h; reflexivity. Qed.
+  Lemma get_enc_orhf o rest : get_orhf (enc_orhf o ++ rest) = Some (o, rest).
+  Proof.
+    destruct o as [h|]; unfold get_orhf, enc_orhf; cbn [app]; [|reflexivity].
+    change (1 =? 0) with false. cbv iota. rewrite get_enc_rhf. reflexivity.
+  Qed.
+  Lemma get_enc_peer p rest : get_peer (enc_peer p ++ rest) = Some (p, rest).
+  Proof. unfold get_peer, enc_peer. cbn [app]. rewrite get_enc_orhf. destruct p; reflexivity. Qed.
+  Lemma get_enc_peers ps rest : get_peers (length ps) (flat_map enc_peer ps ++ rest) = Some (ps, rest).
+  Proof.
+    induction ps as [|p ps IH]; [reflexivity|]. cbn [length get_peers flat_map].
+    rewrite <- app_assoc, get_enc_peer, IH. reflexivity.
+  Qed.
+  Lemma body_roundtrip b : dec_body (enc_body b) = Some b.
+  Proof.
+    unfold dec_body, enc_body. destruct b as [ia nx hop peers mtu]. cbn [rb_ia rb_next rb_mtu rb_hop rb_peers].
+    destruct hop as [[hf m]|]; cbn [app rhe_mtu rhe_hf].
+    - change (1 =? 0) with false. cbv iota. rewrite get_enc_orhf. rewrite Nat2N.id.
+      rewrite <- (app_nil_r (flat_map enc_peer peers)), get_enc_peers. reflexivity.
+    - change (0 =? 0) with true. cbv iota. rewrite Nat2N.id.
+      rewrite <- (app_nil_r (flat_map enc_peer peers)), get_enc_peers. reflexivity.
+  Qed.
 End Toy.
